@@ -66,4 +66,45 @@ DictVerdict(d) == IF \E i \in 1..Len(d) : d[i][2].t = "none" THEN "typeerror"
 \* what is passed as `settings=`: a non-empty dict (judged above); None or any other FALSY object (the defaults are
 \* used: `mod_settings or settings`); a Settings object; anything else is refused with TypeError
 ArgVerdict(kind, d) == CASE kind = "dict" -> DictVerdict(d) [] kind \in {"none", "falsy", "settings"} -> "ok" [] OTHER -> "typeerror"
+
+\* ------------------------------------------------------------------ the other arguments
+\* DateDataParser(languages, locales, region, try_previous_locales, use_given_order) (date.py: constructor) and
+\* get_date_data(date_string, date_formats).  An argument is abstract: a = [t |-> type tag, items |-> Seq([t, s]),
+\* falsy |-> BOOLEAN, s |-> text of a str].  Outcome classes: "ok" | "typeerror" | "valueerror".
+Containers == {"list", "tuple", "set", "frozenset"}
+\* the constructor: the checks in the order in which the code makes them
+CtorVerdict(c) ==
+  IF c.languages.t \notin Containers \cup {"none"} THEN "typeerror"
+  ELSE IF c.locales.t \notin Containers \cup {"none"} THEN "typeerror"
+  ELSE IF c.region.t \notin {"none", "str"} THEN "typeerror"
+  ELSE IF c.tpl.t # "bool" THEN "typeerror"
+  ELSE IF c.ugo.t # "bool" THEN "typeerror"
+  ELSE IF c.locales.falsy /\ c.languages.falsy /\ ~c.ugo.falsy THEN "valueerror"
+  ELSE "ok"
+\* the first call: the string's type; the formats (tried on the raw string first, type-checked only when a locale gets to
+\* work on the string); the language codes (looked up when the locales are loaded)
+KnownLanguage(i) == i.t = "str" /\ i.s \in Languages
+LanguagesVerdict(a) ==
+  IF a.t = "none" \/ a.falsy THEN "ok"
+  ELSE IF \E i \in 1..Len(a.items) : a.items[i].t \in {"list", "dict"} THEN "typeerror"      \* unhashable: they are put into a set
+  ELSE IF \E i \in 1..Len(a.items) : ~KnownLanguage(a.items[i]) THEN "valueerror"
+  ELSE "ok"
+\* none of the generated formats matches the string (they begin with '#'), so every one of them is tried
+FormatsVerdict(f, applicable) ==
+  IF f.t = "none" THEN "ok"
+  ELSE IF f.t \in Containers THEN (IF \E i \in 1..Len(f.items) : f.items[i].t # "str" THEN "typeerror" ELSE "ok")
+  ELSE IF f.falsy THEN (IF applicable THEN "typeerror" ELSE "ok")           \* `date_formats or []`, refused later by the locale parser
+  ELSE IF f.t \in {"int", "float", "bool", "datetime"} THEN "typeerror"     \* not iterable
+  ELSE IF f.t = "bytes" THEN "typeerror"                                     \* iterates to ints: strptime refuses them
+  ELSE IF f.t \in {"str", "dict"} THEN (IF applicable THEN "typeerror" ELSE "ok")   \* characters / keys tried as formats, refused later
+  ELSE "typeerror"
+CallVerdict(c) ==
+  IF c.ds.t # "str" THEN "typeerror"
+  ELSE LET fv == FormatsVerdict(c.fmts, c.applicable /\ LanguagesVerdict(c.languages) = "ok") IN
+       \* formats are tried on the raw string before the locales are loaded
+       IF c.fmts.t \in Containers /\ fv = "typeerror" THEN "typeerror"
+       ELSE IF ~c.fmts.falsy /\ c.fmts.t \in {"int", "float", "bool", "datetime", "bytes"} THEN "typeerror"
+       ELSE IF LanguagesVerdict(c.languages) # "ok" THEN LanguagesVerdict(c.languages)
+       ELSE fv
+ArgsVerdict(c) == IF CtorVerdict(c) # "ok" THEN <<"construct", CtorVerdict(c)>> ELSE <<"call", CallVerdict(c)>>
 =============================================================================
